@@ -22,5 +22,9 @@ for name, schema, df in (
         obs[name] = "raised " + type(e).__name__
     except Exception as e:  # noqa: BLE001
         obs[name] = f"leaked {type(e).__name__}: {e}"
+# the same root: a coercion that fails on SOME rows is collected at the parser stage, the frame stays un-coerced, drop_invalid_rows
+# removes the rows - and the valid rows come back with the dtype they arrived in
+co = pp.DataFrameSchema({"a": pp.Column(int, coerce=True)}, drop_invalid_rows=True).validate(pl.DataFrame({"a": ["1", "x", "3"]}), lazy=True)
+obs["coerce=True with one uncoercible row"] = f"returned {co['a'].to_list()} of dtype {co['a'].dtype}"
 print(obs)
 sys.exit(1 if any(v.startswith("returned") or v.startswith("leaked") for v in obs.values()) else 0)
